@@ -24,6 +24,7 @@ type Graph struct {
 	flagIdent   map[types.Object]*ast.Ident
 	nilFlags    map[types.Object]bool
 	inDefFilter bool
+	flagNilCmp  map[types.Object]ast.Expr
 }
 
 // Preds returns the predecessor map over live blocks.
